@@ -225,7 +225,7 @@ func c20Burst(sc core.Scenario, r *core.R, cl *readerClient, mu *sync.Mutex, upl
 	r.Sample(map[string]interface{}{"burst": true, "workers": workers, "calls_each": calls, "transport": sc.Str("transport"), "completed": atomic.LoadInt32(&total)})
 }
 
-var c20ReaderKinds = []string{"bytes.Reader", "one byte per read", "short random reads", "MultiReader of pieces", "io.Pipe", "strings.Reader"}
+var c20ReaderKinds = []string{"bytes.Reader", "one byte per read (first 64 KiB)", "short random reads", "MultiReader of pieces", "io.Pipe", "strings.Reader"}
 
 type dribble struct {
 	data []byte
@@ -252,7 +252,13 @@ func (d *dribble) Read(p []byte) (int, error) {
 func callerReader(kind int, data []byte, seed int64) io.Reader {
 	switch kind {
 	case 1:
-		return iotest.OneByteReader(bytes.NewReader(data))
+		// one byte per read for the first 64 KiB, the rest in one piece: every byte as its
+		// own chunk costs a write(2) each, megabytes of that outlast the hang verdict's wait
+		k := len(data)
+		if k > 1<<16 {
+			k = 1 << 16
+		}
+		return io.MultiReader(iotest.OneByteReader(bytes.NewReader(data[:k])), bytes.NewReader(data[k:]))
 	case 2:
 		return &dribble{data: data, rng: rand.New(rand.NewSource(seed))}
 	case 3:
